@@ -254,6 +254,9 @@ def _worker_loop(
                         #   (1) to save future `next(...)` calls, and
                         #   (2) to avoid sending multiple `_IterableDatasetStopIteration`s.
                         iteration_end = True
+                        # Without auto-collation the fetcher does not record exhaustion itself;
+                        # the state sent with this notice must say that this worker has ended
+                        fetcher.ended = True  # type: ignore[union-attr]
                     if snapshot or iteration_end:
                         # Generate incremental diff from prev_state_dict and current_state_dict
                         state_dict = _make_state_dict(worker_id, dataset_kind, fetcher, dataset)
